@@ -57,6 +57,16 @@ CHECKS = {
         note='Trusted: Lean kernel; standard axioms; re.search leftmost-match semantics and str slicing are externals (modelled, validated by correspondence); '
              'texts ASCII only (re.I / lower); the text form of floats under & (Python repr) is not modelled - the statement fixes no text form.',
         technique='Lean 4 proof over hand model + differential correspondence + independent reference matcher', design='5/C17'),
+    'C13': dict(
+        text='Lean 4 theorems: for every well-formed formula of the fragment (IF with 2/3 arguments, IFS with any number of pairs, IFERROR, nested to any depth '
+             'and in any operand/argument position of + * / & = SUM LEFT) the Python expression the translators emit evaluates - under the model of CPython '
+             'evaluation order, _ifs, _iferror and _find_error_in_list - to the value of the lazy reference semantics (C13_main, structural induction); '
+             'the clauses of the property are corollaries of the reference semantics (if_lazy, if_omitted_else, ifs_first_true, ifs_none_na, iferror_value / '
+             '_errval / _failure / _fallback_lazy). The list of error values scanned by the runtime is extracted from both runtime copies on every run (Tie A) '
+             'and proved equal as a set to the seven Excel error values. Tie B: random nestings to depth 3/4 evaluated through the real translator and class.',
+        note='Trusted: Lean kernel; standard axioms; CPython evaluation order of the emitted expression (conditional expression, lambda, try/except) is modelled; '
+             'operators in the fragment are fully parenthesised (precedence is C01); the AST extraction of the error list.',
+        technique='Lean 4 proof (structural induction over formulas) over hand model + generated error table + differential correspondence', design='5/C13'),
 }
 
 WIP = set()   # built, proofs in progress: not claimed until green
